@@ -69,7 +69,7 @@ func (c *fireCtx) Done() <-chan struct{} {
 	}
 	return c.open
 }
-func (c *fireCtx) Err() error { return context.Canceled }
+func (c *fireCtx) Err() error { return errCanceled }
 
 // symKinds for symValue
 const (
